@@ -642,3 +642,174 @@ register(
           "rollback to the pre-transition configuration, reporting, re-armed timers and continued processing. evaluations counts "
           "scenarios; fault positions are in the counters. Non-trivial = >= 3 transitions"),
 )
+
+
+# ===========================================================================
+# C12 - snapshots (every cut point of each sampled scenario)
+# ===========================================================================
+from . import c12 as C12  # noqa: E402
+
+_C12 = dict(p_history=0.3, p_parallel=0.25, p_final=0.12, p_always=0.08, p_raise=0.08, p_assign=0.3, n_states=(4, 11),
+            w_target={"history": 4}, p_on_done=0.6)
+
+
+def gen_c12(engine, salt, cycles=1, **kw):
+    base = gen_core(engine, salt, ops_kw={"n_lo": 3, "n_hi": 8}, **dict(_C12, **kw))
+
+    def g(seed):
+        sc = base(seed)
+        sc["restore_cycles"] = cycles
+        return sc
+    return g
+
+
+def gen_c12_corrupt(engine, salt):
+    base = gen_core(engine, salt, ops_kw={"n_lo": 1, "n_hi": 4}, **_C12)
+
+    def g(seed):
+        sc = base(seed)
+        sc["c12_mode"] = "corrupt"
+        return sc
+    return g
+
+
+register(
+    "C12",
+    families=[("cuts_sync", 3, gen_c12("sync", 121)), ("cuts_async", 3, gen_c12("async", 122)),
+              ("cuts_cycles_sync", 1, gen_c12("sync", 123, cycles=3)),
+              ("cuts_hist_parallel_async", 1, gen_c12("async", 124, hist_parallel=True, p_parallel=0.4)),
+              ("corrupt_sync", 1, gen_c12_corrupt("sync", 125)), ("corrupt_async", 1, gen_c12_corrupt("async", 126))],
+    runner=C12.run_c12,
+    stats=C12.stats_c12,
+    level="fault_enumeration",
+    chunk=10,
+    tiers={"quick": {"runs": 900}, "thorough": {"runs": 60000}},
+    rule=("per sampled scenario of n events: for EVERY k <= n the run is cut after event k: get_snapshot(), the interpreter is abandoned "
+          "(its tasks/threads die silently), a fresh machine is built from the same config, from_snapshot + start, and events k+1..n are "
+          "replayed; the restored run must agree with the uninterrupted one after every continuation event on configuration, context, "
+          "status, output, error, history, actors and system registrations; snapshot(restore(s)) == s; a persisted snapshot dict is not "
+          "changed by later execution; corrupt families apply 18 corruption kinds (truncation, structural byte flip, wrong-typed / "
+          "missing fields, unknown and foreign state ids) and require a library error. evaluations = executions; cut points in counters"),
+)
+
+
+# ===========================================================================
+# C13 - termination and non-starvation
+# ===========================================================================
+from . import c13 as C13  # noqa: E402
+
+register(
+    "C13",
+    families=[("cycles_sync", 1, C13.gen_c13("sync")), ("cycles_async", 1, C13.gen_c13("async"))],
+    oracle=C13.oracle_c13,
+    stats=C13.stats_c13,
+    shrink_machine=False,
+    level="exploration",
+    chunk=40,
+    tiers={"quick": {"runs": 3000}, "thorough": {"runs": 200000}},
+    nontrivial=lambda sc, r: True,
+    rule=("seven cycle templates (always ping-pong, self always, action raising its own trigger with and without re-entry, onDone "
+          "re-completing its state, self-enqueueing pure / enqueueActions) x natural length below / at / above maxIterations or endless x "
+          "maxIterations in {3..40} x triggered by start() or by an event, followed by probe events and (half the runs) an external "
+          "send_events burst around the bound; termination is decided by counting sys.monitoring LINE events in repo code against a "
+          "budget proportional to maxIterations (a spin is unwound by raising from the callback), rounds are counted from markers. "
+          "distinct = (template, relation, trigger, engine, M) combinations via trace hash"),
+)
+
+
+# ===========================================================================
+# C14 - lifecycle
+# ===========================================================================
+from . import c14 as C14  # noqa: E402
+
+
+def gen_c14(engine, mode):
+    def g(seed):
+        rng = _rng(seed, 140 + len(mode))
+        asyncish = engine == "async"
+        mg = MachineGen(rng, prof(n_states=(3, 8), p_after=0.35, p_invoke=0.3, svc_kinds=(("coro", "sync") if asyncish else ("sync",)),
+                                  p_delayed_raise=0.2, p_raise=0.05, p_final=0.12, p_history=0.05, p_parallel=0.15, p_always=0.05,
+                                  p_slow_act=0.08, p_async_act=(0.1 if asyncish else 0.0), events=3,
+                                  p_stop_act=(0.06 if mode == "inside" else 0.0)))
+        out = mg.build()
+        ops = []
+        t = 0
+        started = False
+        for _ in range(rng.randint(4, 12)):
+            t = _lattice_time(rng, t)
+            r = rng.random()
+            base = {"t": t, "tie": rng.choice(("before", "after"))}
+            if mode in ("race",):
+                base.update({"wait": False, "obs": False, "client": rng.randrange(2)})
+            if not started and r < 0.8:
+                ops.append(dict(base, op="start", client=0))
+                started = True
+            elif r < 0.10:
+                ops.append(dict(base, op="start"))
+            elif r < 0.28:
+                ops.append(dict(base, op="stop"))
+                if mode == "race":
+                    ops.append({"op": "settle"})
+                    ops.append({"op": "obs", "label": "post-stop"})
+            elif r < 0.36 and started and mode == "seq":
+                ops.append({"op": "snapshot", "label": "last", "t": t})
+                ops.append({"op": "restore", "from": "last"})
+                if rng.random() < 0.8:
+                    ops.append({"op": "start"})
+            elif r < 0.45:
+                ops.append(dict(base, op="send_events", events=[{"type": rng.choice(mg.events), "tag": 1000 + len(ops) * 10 + j} for j in range(rng.randint(1, 3))]))
+            else:
+                ops.append(dict(base, op="send", event=rng.choice(mg.events), tag=len(ops) + 1))
+        sc = _base(seed, engine, out, ops, horizon=t + 300 * MS, post_stop=300 * MS)
+        if engine == "sync" and mode == "race":
+            r = rng.random()
+            if r < 0.6:
+                sc["sched"]["preempt"] = sorted(rng.sample(range(1, 5000), rng.randint(1, 3)))
+            if r > 0.4:
+                sc["sched"]["noise"] = rng.choice((0.001, 0.005, 0.02))
+        return sc
+    return g
+
+
+register(
+    "C14",
+    families=[("life_async_seq", 3, gen_c14("async", "seq")), ("life_async_race", 3, gen_c14("async", "race")),
+              ("life_async_inside", 1, gen_c14("async", "inside")),
+              ("life_sync_seq", 3, gen_c14("sync", "seq")), ("life_sync_race", 2, gen_c14("sync", "race")),
+              ("life_sync_inside", 1, gen_c14("sync", "inside"))],
+    oracle=C14.oracle_c14,
+    stats=C14.stats_c14,
+    level="exploration",
+    rule=("random sequences of start / send / send_events / stop / snapshot+restore(+start), repeated and out of order, at lattice "
+          "instants around timer deadlines and service completions, from one or two clients without settling in between (race mode), "
+          "with stop() called from inside an action, after done, after error; machines carry after-timers, delayed raises with ids, "
+          "services and final states. Status is sampled at every call, return, hook and observation and must follow the allowed edges; "
+          "after stop() returns the task/thread census must be empty and no action / transition / event receipt may follow, including "
+          "after advancing the clock past every pending delay. Non-trivial = >= 1 stop and >= 2 transitions"),
+    nontrivial=lambda sc, r: any(x[3] == "op-call" and x[5] == "stop" for x in r.trace) and sum(1 for x in r.trace if x[3] == "trans") >= 2,
+)
+
+
+# ===========================================================================
+# C15 - actors
+# ===========================================================================
+from . import c15 as C15  # noqa: E402
+
+register(
+    "C15",
+    families=[("actors_async", 4, C15.gen_c15("async")), ("actors_sync", 3, C15.gen_c15("sync")),
+              ("actors_reuse_async", 1, C15.gen_c15("async", "reuse")), ("actors_reuse_sync", 1, C15.gen_c15("sync", "reuse"))],
+    oracle=C15.oracle_c15,
+    stats=C15.stats_c15,
+    shrink_machine=False,
+    level="exploration",
+    tiers={"quick": {"runs": 4000}, "thorough": {"runs": 300000}},
+    rule=("trees of actors (depth <= 3) built from one command-interpreter machine: each operation's payload carries the actor actions "
+          "to run (spawnChild / spawn_<key> with explicit or generated ids, systemIds, factories; sendTo by id, systemId, service key, "
+          "callable, ambiguous and unknown targets; sendParent, forwardTo, escalate; delayed sends with ids; cancel; stopChild; FIN) and "
+          "commands are relayed down the tree; a reference registry (dicts) in the generator predicts the receiver of every uniquely "
+          "tagged message; per-actor receive logs are compared (exactly once, right actor, order per pair, cancelled never, dropped when "
+          "unresolved/ambiguous), stopChild / root stop() must leave every descendant stopped, unregistered and silent. "
+          "Non-trivial = >= 2 actors created and >= 3 tagged messages"),
+    nontrivial=lambda sc, r: C15.stats_c15(sc, r)["actors_created"] >= 2 and C15.stats_c15(sc, r)["messages_expected"] >= 3,
+)
